@@ -50,7 +50,7 @@ def translateSeqs (g : Gencode) (cfg : Cfg) (o : TranslOpts) : List Rec → Work
     if L < 3 then translateSeqs g cfg o rs w acc
     else
       let d := (dsq.drop 1).take L
-      let w0 := { w with out := [] }
+      let w0 : Work := { w with c := { w.c with out := [] } }
       let cuts := if o.windows then windowCuts L else [L]
       let w1 ← if o.watson then runStrand NT AA g cfg w0 false d cuts else some w0
       let w2 ← if o.crick then do
@@ -59,7 +59,7 @@ def translateSeqs (g : Gencode) (cfg : Cfg) (o : TranslOpts) : List Rec → Work
             | _ => none
           runStrand NT AA g cfg w1 true ((rc.drop 1).take L) cuts
         else some w1
-      let recs := w2.out.reverse.map (orfRecord r.name r.desc)
+      let recs := w2.c.out.reverse.map (orfRecord r.name r.desc)
       translateSeqs g cfg o rs w2 (recs.reverse ++ acc)
 
 def translateText (o : TranslOpts) (recs : List Rec) : Option String := do
